@@ -37,6 +37,9 @@ class SimConn(object):
     self.fault_at = {}                  # opn -> 'exc' | 'eof' | 'hang'
     self.connect_plan = ('ok', 0.0)     # ('ok'|'refuse', delay) | ('hang',) | ('manual',)
     self.sent = bytearray()             # everything the client wrote
+    self.fed_total = 0                  # bytes fed by the peer so far
+    self.consumed_total = 0             # bytes the client has read so far
+    self.marks = []                     # [(end offset in the fed stream, mark)] -> 'consumed' events
     self._waiter = None
     self._wait_kind = None
     self.peer = None
@@ -129,14 +132,15 @@ class SimConn(object):
 
   def sendall(self, data):
     self._check_open()
+    if not self.connected:
+      # using a socket whose connect never succeeded: not a new environment fault
+      self.net._log('send_unusable', self)
+      raise OSError(errno.ENOTCONN, 'Transport endpoint is not connected (simulated)')
     self.opn += 1
     f = self.fault_at.get(self.opn)
     if f in ('exc', 'eof') or self.tx_err is not None:
       self.net._log('send_failed', self)
       raise (self.tx_err or BrokenPipeError(errno.EPIPE, 'Broken pipe (simulated)'))
-    if f == 'hang':
-      self._park('send')
-      raise OSError(errno.EBADF, 'closed while sending')
     data = bytes(data)
     self.sent += data
     self.net._log('send', self, n=len(data))
@@ -149,6 +153,9 @@ class SimConn(object):
 
   def _recv(self, n):
     self._check_open()
+    if not self.connected:
+      self.net._log('recv_unusable', self)
+      raise OSError(errno.ENOTCONN, 'Transport endpoint is not connected (simulated)')
     self.opn += 1
     f = self.fault_at.get(self.opn)
     if f == 'exc':
@@ -168,6 +175,9 @@ class SimConn(object):
             k = min(k, self.chunk)
           out = bytes(self.inbox[:k])
           del self.inbox[:k]
+          self.consumed_total += k
+          while self.marks and self.marks[0][0] <= self.consumed_total:
+            self.net._log('consumed', self, mark=self.marks.pop(0)[1])
           return out
         if self.rx_err is not None:
           self.net._log('recv_failed', self)
@@ -200,11 +210,15 @@ class SimConn(object):
                                  OSError(errno.EBADF, 'Bad file descriptor (simulated: closed during wait)'))
 
   # ------------------------------------------------------------ driver / peer side
-  def feed(self, data):
-    """Bytes from the peer arrive (become readable at the next loop callback)."""
+  def feed(self, data, mark=None):
+    """Bytes from the peer arrive (become readable at the next loop callback).  If `mark`
+    is given, a 'consumed' event carrying it is logged when the client has read them all."""
     if self.closed:
       return
     self.inbox += data
+    self.fed_total += len(data)
+    if mark is not None:
+      self.marks.append((self.fed_total, mark))
     self.net._log('feed', self, n=len(data))
     if self._wait_kind == 'recv':
       self.net.loop.run_callback(self._recv_ready)
